@@ -86,6 +86,14 @@ class _Raised(Exception):
     """The interpreted function raised (value = normalised exception expression)."""
 
 
+class _Unevaluated:
+    def __repr__(self) -> str:
+        return "<unevaluated>"
+
+
+UNEVALUATED = _Unevaluated()
+
+
 class Rec:
     """A sample record whose attributes the evaluator may read (e.g. a stream with `.idle`)."""
 
@@ -102,6 +110,8 @@ def eval_expr(node: ast.AST, env: Dict[str, Any]) -> Any:
         return node.value
     if isinstance(node, ast.Name):
         if node.id in env:
+            if env[node.id] is UNEVALUATED:
+                raise Unknown(f"{node.id} (bound to a value the evaluator cannot compute)")
             return env[node.id]
         raise Unknown(node.id)
     if isinstance(node, ast.Attribute):
@@ -209,6 +219,15 @@ def eval_expr(node: ast.AST, env: Dict[str, Any]) -> Any:
             else:
                 raise Unknown(norm(node))
         return out_s
+    if isinstance(node, ast.DictComp) and len(node.generators) == 1 and not node.generators[0].is_async:
+        gen = node.generators[0]
+        outd: Dict[Any, Any] = {}
+        for item in eval_expr(gen.iter, env):
+            inner = dict(env)
+            _bind(gen.target, item, inner)
+            if all(eval_expr(c, inner) for c in gen.ifs):
+                outd[eval_expr(node.key, inner)] = eval_expr(node.value, inner)
+        return outd
     if isinstance(node, ast.Dict) and all(k is not None for k in node.keys):
         return {eval_expr(k, env): eval_expr(v, env) for k, v in zip(node.keys, node.values)}
     if isinstance(node, ast.IfExp):
@@ -233,12 +252,26 @@ def eval_expr(node: ast.AST, env: Dict[str, Any]) -> Any:
         key = norm(node)
         if key in env:
             return env[key]
+        if ("call:" + fn) in env:
+            return env["call:" + fn](*[eval_expr(a, env) for a in node.args], **{k.arg: eval_expr(k.value, env) for k in node.keywords if k.arg})
         if fn in _PURE_BUILTINS and not node.keywords:
             args = [eval_expr(a, env) for a in node.args]
             try:
                 return _PURE_BUILTINS[fn](*args)
             except Exception as error:
                 raise _Raised(f"{type(error).__name__}: {error}")
+        if isinstance(node.func, ast.Attribute) and node.func.attr in ("write", "getvalue") and not node.keywords:
+            import io as _io
+
+            try:
+                recv = eval_expr(node.func.value, env)
+            except Unknown:
+                recv = None
+            if isinstance(recv, (_io.StringIO, _io.BytesIO)):
+                try:
+                    return getattr(recv, node.func.attr)(*[eval_expr(a, env) for a in node.args])
+                except Exception as error:
+                    raise _Raised(f"{type(error).__name__}: {error}")
         if isinstance(node.func, ast.Attribute) and node.func.attr in _PURE_METHODS and not node.keywords:
             v = eval_expr(node.func.value, env)
             if not isinstance(v, (str, bytes, bytearray, tuple, list, dict, set, frozenset)):
@@ -284,6 +317,7 @@ _PURE_BUILTINS["dict"] = dict
 _PURE_BUILTINS["sum"] = sum
 _PURE_BUILTINS["abs"] = abs
 _PURE_BUILTINS["repr"] = repr
+_PURE_BUILTINS["dict.fromkeys"] = dict.fromkeys
 # pure standard-library functions the repository imports by name (never repository code)
 import urllib.parse as _up
 
@@ -344,12 +378,34 @@ def eval_function(func: ast.AST, env: Dict[str, Any], depth: int = 0, want_env: 
                 except (IndexError, TypeError) as error:
                     raise _Raised(f"{type(error).__name__}: {error}")
                 local[s.targets[0].value.id] = cont
+            elif isinstance(s, ast.Assign) and len(s.targets) == 1 and isinstance(s.targets[0], ast.Attribute) and isinstance(s.targets[0].value, ast.Name):
+                local[norm(s.targets[0])] = eval_expr(s.value, local)
             elif isinstance(s, ast.Assign) and len(s.targets) == 1:
-                _bind(s.targets[0], eval_expr(s.value, local), local)
+                try:
+                    val = eval_expr(s.value, local)
+                except Unknown:
+                    if not local.get("__lenient__") or not isinstance(s.targets[0], ast.Name):
+                        raise
+                    val = UNEVALUATED  # only an error if something later reads it
+                _bind(s.targets[0], val, local)
+            elif isinstance(s, ast.AnnAssign) and s.value is not None and isinstance(s.target, ast.Attribute):
+                local[norm(s.target)] = eval_expr(s.value, local)
             elif isinstance(s, ast.AnnAssign) and s.value is not None:
-                _bind(s.target, eval_expr(s.value, local), local)
+                try:
+                    val = eval_expr(s.value, local)
+                except Unknown:
+                    if not local.get("__lenient__") or not isinstance(s.target, ast.Name):
+                        raise
+                    val = UNEVALUATED
+                _bind(s.target, val, local)
+            elif isinstance(s, ast.AnnAssign):
+                continue
             elif isinstance(s, ast.AugAssign) and isinstance(s.target, ast.Name) and isinstance(s.op, ast.Add):
                 local[s.target.id] = eval_expr(s.target, local) + eval_expr(s.value, local)
+            elif isinstance(s, ast.AugAssign) and isinstance(s.target, ast.Attribute) and isinstance(s.op, (ast.Add, ast.Sub)):
+                cur = eval_expr(s.target, local)
+                delta = eval_expr(s.value, local)
+                local[norm(s.target)] = cur + delta if isinstance(s.op, ast.Add) else cur - delta
             elif isinstance(s, ast.For):
                 try:
                     for item in list(eval_expr(s.iter, local)):
@@ -374,6 +430,8 @@ def eval_function(func: ast.AST, env: Dict[str, Any], depth: int = 0, want_env: 
                 local[s.value.func.value.id] = lst
             elif isinstance(s, (ast.Pass, ast.Nonlocal, ast.Global, ast.Import, ast.ImportFrom)):
                 continue
+            elif isinstance(s, ast.Expr) and isinstance(s.value, ast.Call):
+                eval_expr(s.value, local)  # only what the evaluator itself can perform (else Unknown)
             elif isinstance(s, ast.Raise):
                 raise _Raised(norm(s.exc) if s.exc is not None else "raise")
             else:
